@@ -74,9 +74,8 @@ impl ErrorKind {
 }
 
 /// R5: `.wrap(..)` / `.with_wrap(..)` only add message context; `kind()` is preserved
-/// (that statement is itself proved from the repository text of `with_wrap` in U16).
-//@frozen src/error.rs :: impl ErrorExt for ErrorImpl fn with_wrap
-//@frozen src/error.rs :: impl ErrorExt for Error fn with_wrap
+/// (proved from the repository text of `ErrorImpl::with_wrap` and `Error::with_wrap` in U16; the `Result<T,E>` impl and the
+/// default method `wrap`, which only forward to those two, stay hash-frozen).
 //@frozen src/error.rs :: impl ErrorExt for Result<T,E> fn with_wrap
 //@frozen src/error.rs :: impl ErrorExt fn wrap
 pub trait ErrorExt: Sized {
